@@ -132,13 +132,61 @@ Definition gen_sam (c : compiled) (off : option (Z * Z)) : list (idv * (range * 
           (enumerate (zip (cn_ranges n) (ep_ranges (cn_ep n)))))
     (rev (filter ni_sbr (c_nis c))).
 
+(* ---------------------------------------------------------------- names *)
+Definition is_lower (n : nat) : bool := (Nat.leb 97 n && Nat.leb n 122)%bool.
+Definition is_upper (n : nat) : bool := (Nat.leb 65 n && Nat.leb n 90)%bool.
+Fixpoint lower (s : string) : string :=
+  match s with
+  | EmptyString => EmptyString
+  | String c r => let n := nat_of_ascii c in String (if is_upper n then ascii_of_nat (n + 32) else c) (lower r)
+  end.
+(* str.capitalize(): first character upper-cased, the rest lower-cased *)
+Definition py_capitalize (s : string) : string :=
+  match s with
+  | EmptyString => EmptyString
+  | String c r => let n := nat_of_ascii c in String (if is_lower n then ascii_of_nat (n - 32) else c) (lower r)
+  end.
+Fixpoint all_digits (s : string) : bool :=
+  match s with
+  | EmptyString => true
+  | String c r => let n := nat_of_ascii c in (Nat.leb 48 n && Nat.leb n 57)%bool && all_digits r
+  end.
+Definition is_digit_str (s : string) : bool := match s with EmptyString => false | _ => all_digits s end.
+
+Fixpoint split_us (s : string) (cur : string) : list string :=
+  match s with
+  | EmptyString => [str_rev cur]
+  | String c r => if Ascii.eqb c "_"%char then str_rev cur :: split_us r EmptyString
+                  else split_us r (String c cur)
+  end.
+(* snake_to_camel (after the fix that keeps '_' between two numeric pieces) *)
+Fixpoint camel_parts (prev : option string) (parts : list string) : string :=
+  match parts with
+  | [] => EmptyString
+  | p :: rest =>
+      (match prev with
+       | Some q => if is_digit_str q && is_digit_str p then "_" else ""
+       | None => ""
+       end) +++ py_capitalize p +++ camel_parts (Some p) rest
+  end.
+Definition snake_to_camel (s : string) : string := camel_parts None (split_us s EmptyString).
+
+
+(* Network.check_identifiers: names must stay distinct when rendered as CamelCase identifiers *)
+Definition check_identifiers (names : list string) (what : string) : res unit :=
+  if nodupb str_eqb (map snake_to_camel names) then Ok tt
+  else Err ("ValueError: two " +++ what +++ " are rendered as the same identifier").
+
 Definition gen_routing_info (sp : oracle) (c : compiled) : res rinfo :=
   let num := Z.of_nat (length (c_nis c)) in
   if num =? 0 then Err "No endpoints found in the network" else
   let idb := clog2 num in
+  (* the members of ep_id_e are the CamelCase names of the endpoint instances, followed by the endpoint count *)
+  do _ <- check_identifiers (map enum_name (c_nis c) ++ ["num_endpoints"]) "endpoint enumeration members";
   do xy <- match d_algo (c_desc c) with XY => do v <- gen_xy c; Ok (Some v) | _ => Ok None end;
   do tables <- match d_algo (c_desc c) with
-               | ID => mapM (fun r => do t <- gen_table sp c r; Ok (cr_name r, t)) (c_rts c)
+               | ID => do _ <- check_identifiers (map (fun r => cr_name r +++ "_map") (c_rts c)) "router tables";
+                       mapM (fun r => do t <- gen_table sp c r; Ok (cr_name r, t)) (c_rts c)
                | _ => Ok []
                end;
   do routes <- match d_algo (c_desc c) with
@@ -149,6 +197,7 @@ Definition gen_routing_info (sp : oracle) (c : compiled) : res rinfo :=
   let rbits := fold_left Z.max (flat_map (fun nr => map route_bits_of (snd nr)) routes) 1 in
   let off := match xy with Some (_, (_, (_, o))) => Some o | None => None end in
   let sam := gen_sam c off in
+  do _ <- check_identifiers (map (fun e => snd (snd e)) sam) "address map rules";
   (* RouteMap(name="sam", rules=...) runs the overlap check *)
   do _ <- mk_map (map (fun e => {| dest := 0; st := r_start (fst (snd e)); en := r_end (fst (snd e));
                                    sz := r_size (fst (snd e)) |}) sam);
